@@ -1,6 +1,6 @@
 (* C06 — pinned statements. Nothing but statements, [exact] and Print Assumptions. *)
 From Coq Require Import List NArith Bool Arith.
-From MV Require Import C06.Model C06.Spec C06.Proofs.
+From MV Require Import C06.Model C06.Spec C06.Proofs C06.Sched.
 Import ListNotations.
 
 (* A label list is a history AND a schedule: user actions (create guards, clone handles, mutate, begin
@@ -65,6 +65,25 @@ Theorem c06_sequential_exact : forall ls : list label, Forall (fun l => is_user 
 Proof. exact sequential_exact. Qed.
 Print Assumptions c06_sequential_exact.
 
+(* multi-thread runs at the granularity of the harness's sync points: a sequential prefix, then per-thread
+   programs of user actions, one thread at a time running to its next sync point ([grants]).  For EVERY thread
+   sequence after which no thread is left inside a destructor, the observation (sync point reached and number of
+   appends after every grant, the sink's records) satisfies the promise-predicate [trace_ok] that the check
+   executes on the implementation's observations: at most one append, never before the promise is due, the
+   record is the world and content of the appending block, and appended whenever nobody is inside a destructor
+   and the promise is due *)
+Theorem c06_scheduled_observation_ok : forall (setup : list label) (progs : list (list label)) (ts : list nat),
+  Forall (fun l => is_user l = true) setup ->
+  Forall (Forall (fun l => is_user l = true)) progs ->
+  let s0 := fold_left seq_step setup init in
+  let ths := map (fun p => mk_thr p None) progs in
+  let v0 := fold_left view_step setup view_init in
+  (forall th, In th (snd (final_st (s0, ths) ts)) -> t_cur th = None) ->
+  trace_ok v0 progs (repeat false (length progs)) (if due v0 then 1 else 0)
+           (zip3 ts (fst (grants (s0, ths) ts))) (emits (snd (grants (s0, ths) ts))) = true.
+Proof. exact scheduled_observation_ok. Qed.
+Print Assumptions c06_scheduled_observation_ok.
+
 (* non-vacuity *)
 (* owner dropped while two flush guards live; the last guard's drop appends; a force guard dropped later is harmless *)
 Example c06_example_guards :
@@ -89,4 +108,14 @@ Proof. vm_compute. reflexivity. Qed.
 Example c06_example_premises :
   quiescent (run [LNewFlush; LDropOwner; LStep 0; LStep 0; LDropFlush; LStep 1; LStep 1]) = true /\
   all_dropped (view_of_history [LNewFlush; LDropOwner; LStep 0; LStep 0; LDropFlush; LStep 1; LStep 1]) = true.
+Proof. vm_compute. auto. Qed.
+
+(* a complete schedule of three threads (owner / force guard / last flush guard) *)
+Example c06_example_schedule :
+  let setup := [LNewFlush; LNewForce; LMutate 1] in
+  let progs := [[LDropOwner]; [LDropForce]; [LDropFlush]] in
+  let ts := [1; 0; 1; 2; 1; 1] in
+  let st := (fold_left seq_step setup init, map (fun p => mk_thr p None) progs) in
+  fst (grants st ts) = [(1, 0); (0, 0); (2, 0); (0, 0); (3, 1); (0, 1)] /\
+  forallb (fun th => match t_cur th with None => true | Some _ => false end) (snd (final_st st ts)) = true.
 Proof. vm_compute. auto. Qed.
